@@ -399,6 +399,29 @@ fn c06_long_cases() -> Vec<(Vec<u32>, Vec<u32>)> {
             }
         }
     }
+    // long periodic patterns (13 to 51 characters, repeated characters): the occurrence after every short prefix,
+    // after a partial occurrence, twice in a row, and the near miss
+    for u in &units {
+        for total in [13usize, 14, 15, 16, 17, 31, 32, 33, 34, 35, 36, 40, 48, 51] {
+            let pat: Vec<u32> = u.iter().cycle().take(total).copied().collect();
+            let mut pres: Vec<Vec<u32>> = vec![vec![], vec![99], vec![97], vec![100, 99], u.clone()];
+            pres.push(pat[..total / 2].to_vec());
+            pres.push(pat[1..].to_vec());
+            for pre in pres {
+                let mut t = pre.clone();
+                t.extend(&pat);
+                out.push((t.clone(), pat.clone()));
+                let mut t2 = t.clone();
+                t2.push(100);
+                t2.extend(&pat);
+                out.push((t2, pat.clone()));
+                let mut miss = pre.clone();
+                miss.extend(&pat[..total - 1]);
+                miss.push(100);
+                out.push((miss, pat.clone()));
+            }
+        }
+    }
     out
 }
 
@@ -514,6 +537,16 @@ fn c08_print_case(s: &[u32]) -> Option<String> {
     let back = parse_smt_literal(&un);
     if codes(&back) != s {
         return Some(format!("Display of {:?} = {} reads back as {:?}", s, printed, codes(&back)));
+    }
+    // under a width specification (which the literal may ignore or honour by padding around it) nothing inside the
+    // quotes may change
+    if s.len() <= 4 {
+        let plain = &printed;
+        for (spec, out) in [("{:3}", format!("{:3}", ms)), ("{:>12}", format!("{:>12}", ms)), ("{:<12}", format!("{:<12}", ms)), ("{:^13}", format!("{:^13}", ms))] {
+            if out.trim_matches(' ') != plain.as_str() {
+                return Some(format!("format!(\"{}\") of {:?} = {:?}, which is not the literal {} (padded or not)", spec, s, out, plain));
+            }
+        }
     }
     // and by the SMT-LIB reading of the literal itself (independent of the crate's parser)
     let unc: Vec<char> = un.chars().collect();
@@ -1073,6 +1106,18 @@ fn c09_run(ctx: &Ctx, batch: usize, nb: usize, rep: &mut Report) {
         vals.push(10u128.pow(e));
         vals.push(10u128.pow(e) + 7);
     }
+    // values that wrap to small numbers modulo 2^64 (20 digits) and modulo 2^63, 2^128 would not fit u128 sums: stop at 2^127
+    let p64: u128 = 1 << 64;
+    for k in 1..=6u128 {
+        for d in [0u128, 1, 982, (1 << 31) - 1, 1 << 31] {
+            vals.push(k * p64 + d);
+            vals.push(k * (p64 / 2) + d);
+        }
+    }
+    vals.push(p64 - 1);
+    vals.push((1u128 << 127) + 12345);
+    vals.push(99_999_999_999_999_999_999);
+    vals.push(100_000_000_000_000_000_000);
     for k in 0..64u128 {
         vals.push(p31 + k * 33_554_432 + 5); // spread over [2^31, 2^32)
         vals.push(p32 + k * 67_108_864 + 1);
